@@ -454,3 +454,75 @@ header_units = Contract(U + "table_header_to_units", PROPERTY, params={"header_d
                                  "nothing-else-is-listed": "len(result) == 3"})
 header_units.lib = dict(_HLIB)
 CONTRACTS += [header_units]
+
+
+# ---- JokerSamples.write / read: the wiring around the table writer / reader (cfg mode: calls are events) ---------------------------------------------
+SJ = "thejoker.samples.JokerSamples."
+
+
+def _ev_calls(path, short):
+    return [e for e in path.ghost.get("events", []) if e.get("kind") == "call" and not e.get("attempted") and e["name"].split(".")[-1] == short]
+
+
+def _w_ok(ex, path, args, kwargs, node, fn):
+    ev = _ev_calls(path, "write_table_hdf5")
+    if len(ev) != 1:
+        return False
+    e = ev[0]
+    kw = e["kwargs"]
+    self = path.env.get("self")
+    return (len(e["args"]) >= 2 and e["args"][0] is self.fields["tbl"] and e["args"][1] is path.env.get("output")
+            and kw.get("path") is self.fields["_hdf5_path"] and kw.get("append") is path.env.get("append") and kw.get("overwrite") is path.env.get("overwrite")
+            and kw.get("serialize_meta") is True and kw.get("metadata_conflicts") == "error")
+
+
+def _write_self(ex, path, name):
+    return Obj("JokerSamples", {"tbl": Opaque("self.tbl"), "_hdf5_path": "samples", "__qualclass__": "thejoker.samples.JokerSamples"}, ident="self")
+
+
+js_write = [Contract(SJ + "write", PROPERTY,
+                     params={"self": _write_self, "output": (lambda ex, path, n, k=kind: (Opaque("h5py-group") if k == "group" else ("const", "lib.hdf5")[1])),
+                             "overwrite": "bool", "append": "bool"},
+                     cases=[{"_name": kind}],
+                     ensures={"the-whole-table-goes-to-the-writer-with-metadata-and-conflicts-refused":
+                              "written_with_meta_and_conflict_check()"})
+            for kind in ("file-name", "group")]
+for _c in js_write:
+    _c.cfg_mode = True
+    _c.callees = {}
+    _c.lib = {"written_with_meta_and_conflict_check": _w_ok, "os.path.splitext": lambda ex, path, args, kwargs, node, fn: PyList(["lib", ".hdf5"], None, True)}
+CONTRACTS += js_write
+
+
+def _r_ok(ex, path, args, kwargs, node, fn):
+    rd = _ev_calls(path, "read")
+    if len(rd) != 1 or not rd[0]["args"] or rd[0]["args"][0] is not path.env.get("filename"):
+        return False
+    if rd[0]["kwargs"].get("path") != "samples":
+        return False
+    res = path.env.get("result")
+    mk = getattr(res, "from_call", None)
+    tbl_arg = mk["kwargs"].get("samples") if mk is not None else None
+    if mk is not None and tbl_arg is None and mk["args"]:
+        tbl_arg = mk["args"][0]
+    if mk is None or getattr(tbl_arg, "from_call", None) is not rd[0]:
+        return False
+    # (the constructor takes the reference epoch etc. from the table's own metadata - proved in C17 -, so forwarding **tbl.meta as well is optional)
+    return True
+
+
+def _cls_param(ex, path, name):
+    o = Opaque("JokerSamples-class")
+    o.__dict__["_attrs"] = {"_hdf5_path": "samples"}
+    return o
+
+
+js_read = [Contract(SJ + "read", PROPERTY,
+                    params={"cls": _cls_param, "filename": ("const", "lib.hdf5"), "path": "none"},
+                    cases=[{"_name": "hdf5-file-name"}],
+                    ensures={"the-table-read-from-that-file-and-path-becomes-the-samples-with-its-own-metadata": "read_then_built_from_the_table()"})]
+for _c in js_read:
+    _c.cfg_mode = True
+    _c.callees = {}
+    _c.lib = {"read_then_built_from_the_table": _r_ok, "os.path.splitext": lambda ex, path, args, kwargs, node, fn: PyList(["lib", ".hdf5"], None, True)}
+CONTRACTS += js_read
